@@ -1,5 +1,6 @@
 """C09 — decided on the sequential tower model (see tools/tower_common.py, DESIGN.md section 5)."""
 import tower_common
+from props import c03
 
 TARGETS = ["theories/Properties/C09.v"]
 MON = {"C09"}
@@ -7,7 +8,11 @@ KNOWN = {}
 
 
 def run(ctx):
-    return tower_common.check(ctx, "C09", TARGETS, MON, KNOWN)
+    def extra(ctx):
+        # expiry / purge heights across a restart: the crash harness's expiry, purge and boundary-configuration histories
+        # (templates 3-6: short subscription with renewal in the grace period; duration 0 / grace 0 variants)
+        c03.crash_probe(ctx, "C09", {3, 4, 5, 6})
+    return tower_common.check(ctx, "C09", TARGETS, MON, KNOWN, extra_run=extra)
 
 
 def replay(ctx, path):
